@@ -81,8 +81,18 @@ def alias_cast_case(g):
     rts = [RuleT(PathT([outer] + inner2), cond, cast)]
     if r.random() < 0.5:
         rts.append(RuleT(PathT([outer]), Leaf("ValueLength", "greater_than", [0]), []))
+    v = valida()
+
+    def grafted():
+        # a schema without casts into which a schema WITH casts is added afterwards (under the empty root): what a schema needs to
+        # know about its rules must hold for the rules it has when it validates, not for those it was built with
+        s0 = v.Schema([x.build() for x in rts if not x.cast])
+        s0.add_schema(v.Schema([x.build() for x in rts if x.cast]), v.DataPath())
+        return s0
     calls = [("rule.test", lambda: rts[0].build(), lambda o, d: (obs_rule_test(t := o.test(d)), t.data.get_original())),
-             ("schema.validate", lambda: sc.build_schema(rts), lambda o, d: sc.impl_validate_schema_nocopy(o, d))]
+             ("schema.validate", lambda: sc.build_schema(rts), lambda o, d: sc.impl_validate_schema_nocopy(o, d)),
+             ("schema(iterator).validate", lambda: v.Schema(iter([x.build() for x in rts])), lambda o, d: sc.impl_validate_schema_nocopy(o, d)),
+             ("schema(add_schema).validate", grafted, lambda o, d: sc.impl_validate_schema_nocopy(o, d))]
     return doc, calls, {"rules": [x.descr()[:200] for x in rts], "shared-container": True}
 
 
@@ -121,7 +131,7 @@ def run(tier, seed, model_ok, spec_ok, replay=None):
         doc = sc_doc(g, i)
         other = g.document(3, 4)
         calls, descr = make_calls(g, cg, pg, rg, doc)
-        if i % 10 == 7:
+        if i % 10 in (3, 7):
             doc, calls, descr = alias_cast_case(g)
             dist["shared-container documents with fan-out cast rules"] += 1
         shared = {}
